@@ -565,7 +565,7 @@ var _ = register("H_C09_jsonretry", H_C09_jsonretry)
 // sealed links - each time naming the right codec in LogOptions.IO. Both reconstructions equal the originals,
 // whichever is loaded first.
 func H_C09_optreuse() {
-	prop := []string{"C09", "C11"}[vx.Param("AS", 0)] // no block is faulty: "exactly the reachable entries" (C11) is "the original" (C09)
+	prop := []string{"C09", "C11", "C18"}[vx.Param("AS", 0)] // no block is faulty: "exactly the reachable entries" (C11) is "the original" (C09); one of the two logs has sealed links: the reader holding the key recovers its structure (C18)
 	api := newMemAPI()
 	ids, _ := realIdentities("userA")
 	plain, err := cbor.IO(&entry.Entry{}, &entry.LamportClock{})
